@@ -201,10 +201,10 @@ def t_cfg(ctx, kd):
 
 
 def judge_trace(ctx, trace, source, kd, totals, max_events=30000):
-    # one chunk per available worker (a chunk is one JVM), within [1000, max_events] events
+    # one chunk per available worker (a chunk is one JVM), within [3000, max_events] events
     with open(trace) as f:
         n = sum(1 for _ in f)
-    max_events = max(1000, min(max_events, n // min(lib.NCPU, 16) + 1))
+    max_events = max(3000, min(max_events, n // min(lib.NCPU, 16) + 1))
     v = lib.judge(ctx, MODULE_T, t_cfg(ctx, kd), trace, max_events=max_events, heap="3g")
     for k in STAT_KEYS:
         totals[k] = totals.get(k, 0) + v.get(k, 0)
